@@ -7,6 +7,14 @@ HERE = os.path.dirname(os.path.dirname(os.path.abspath(__file__)))
 
 # id -> (technique, what the check decides, trusted / assumed)
 CLAIMED = {
+    'C14': ('abstract interpretation of each click command over None-ness x equality classes of k-mer-parameter entities; all abstract paths enumerated (states split, never joined)',
+            'Decides for every option combination (abstract path) of every signature-handling command that all signature operands of each comparison sink have known-equal parameters (found the repaired `query -s` defect), '
+            'that explicit -k/--prefix in dist agree with every operand, that every differ-path ends in raise click.ClickException before any sink/output, and the -k/--prefix / --db-params option discipline.',
+            'click maps ClickException to a non-zero exit; KmerSpec equality is (k, prefix).'),
+    'C20': ('may-alias forward dataflow over the statement CFG + guard normal forms for the index dispatch + affine slice arithmetic + class-table rules',
+            'Decides that no in-place write can reach memory that may alias a caller argument (np.asarray/views alias, copy()/arithmetic are fresh; found the repaired index-buffer defect; positive control embedded), '
+            'exhaustive index dispatch with the right errors, _check_index arithmetic, element/length/contiguous-slice arithmetic, kmerspec/dtype propagation into sub-collections, list delegation of SignatureList mutators, equality.',
+            'slice.indices, np.arange, np.flatnonzero, np.array_equal; NumPy view semantics of np.asarray.'),
     'C03': ('guard (path-condition) normal forms + forward abstract interpretation over a statement CFG ({none, checked, unchecked}) for next_taxon',
             'Decides the threshold guard (conjunct set, <= with equality, lineage order, first hit), the ancestors walk, argmin + same-index pairing and the non-strict result fields, '
             'that EVERY taxon returned as "next" has passed a threshold-present test on every path (this rule found the repaired next_taxon defect), the reportable walk and the wiring in get_result_item.',
